@@ -32,7 +32,7 @@ def readCore (f : Bytes) (start end0 : Int) : M (R Bytes) :=
       let startOffset := wrap64 (start * 8192)
       let bytesToRead := wrap64 ((end1 - start + 1) * 8192)
       if bytesToRead < 0 then throw .makeLen
-      else pure (fileReadAt f startOffset bytesToRead.toNat)
+      else pure (fileReadFullAt f startOffset bytesToRead.toNat)
 
 theorem readBlockRange_core (f : Bytes) (r : Option BlockRange) :
     readBlockRange (some f) r = readCore f (rangeStart r) (rangeEnd r ((f.length / 8192 : Nat) : Int)) := rfl
@@ -103,10 +103,10 @@ theorem readCore_eq (f : Bytes) (hlen : f.length < 2 ^ 62) (a : Nat) (b? : Optio
       rw [wrap64_id _ (by omega) (by omega), wrap64_id _ (by omega) (by omega)]
       have h6 : ¬ (((b : Int) - (a : Int) + 1) * 8192 < 0) := by omega
       simp only [h6, if_false, pure_eq_ok, readResult]
-      unfold fileReadAt
+      unfold fileReadFullAt
       have h7 : ¬ ((a : Int) * 8192 < 0) := by omega
       have h8 : ¬ ((((b : Int) - (a : Int) + 1) * 8192).toNat = 0) := by omega
-      have h9 : ¬ (((a : Int) * 8192).toNat ≥ f.length) := by omega
+      have h9 : ¬ (((a : Int) * 8192).toNat + (((b : Int) - (a : Int) + 1) * 8192).toNat > f.length) := by omega
       simp only [h7, h8, h9, if_false]
       have e1 : ((a : Int) * 8192).toNat = a * 8192 := by omega
       have e2 : (((b : Int) - (a : Int) + 1) * 8192).toNat = (b - a + 1) * 8192 := by omega
